@@ -1867,8 +1867,27 @@ def pattern_methods(rng):
         "swap-through-copy": [cp, ("assign", "p0", p1), ("assign", "p1", ("var", "x1")), ("return", ("bin", "sub", "I", p0, p1, "3reg"))],
         "copy-then-reassign-use-in-condition": [cp, p0plus, ("if", ("cmp", "lt", "I", ("var", "x1"), p1, False), [("return", p0)], []), ("return", ("var", "x1"))],
     }
+    castcp = ("assign", "x1", ("un", "int-to-byte", p0))
+    par["cast-of-param-then-reassign-in-branch"] = [castcp, ("if", c2, [p0plus], []), ("return", ("bin", "xor", "I", ("var", "x1"), p0, "3reg"))]
+    par["cast-of-param-then-reassign-in-loop"] = [castcp, k0, ("while", lc, [("assign", "p0", ("bin", "add", "I", p0, ("var", "k0"), "3reg")), inc], "top"),
+                                                 ("return", ("bin", "xor", "I", ("var", "x1"), p0, "3reg"))]
+    par["cast-of-param-used-twice-after-reassign"] = [castcp, p0plus, ("return", ("bin", "add", "I", ("bin", "mul", "I", ("var", "x1"), ("var", "x1"), "3reg"), p0, "3reg"))]
     for name, body in par.items():
         add("PD", "I", P2, body, "param:" + name, name)
+    # the same with a widening cast (long temporary of an int parameter)
+    add("PD", "J", P2, [("assign", "x1", ("un", "int-to-long", p0)), ("if", c2, [p0plus], []),
+                        ("return", ("bin", "add", "J", ("var", "x1"), ("un", "int-to-long", p0), "3reg"))], "param:widening-cast-of-param-then-reassign-in-branch", "long", locals_=[("x1", "J")])
+    # ---- PC3: a conditional inside the INNER of two nested loops that does not join again inside the inner loop (if without else as the
+    # last statement of the body, if with a returning branch): the follow of the inner loop's nodes must be the inner follow
+    loops3 = ("while-top", "while-bottom", "do-while")
+    for a in loops3:
+        for b in loops3:
+            for cname, cstmts in (("if-last", [_acc(), ("if", ("cmp", "gt", "I", x0, ("var", "p1"), False), [post], [])]),
+                                  ("if-else-last", [_acc(), ("if", ("cmp", "gt", "I", x0, ("var", "p1"), False), [post], [pre])]),
+                                  ("if-return", [_acc(), early, post]),
+                                  ("if-first", [("if", ("cmp", "gt", "I", x0, ("var", "p1"), False), [post], []), _acc()])):
+                inner = _pat_construct(b, cstmts, 1, sel=("var", "p1"))
+                add("PC", "I", P2, [init] + _pat_construct(a, [pre] + inner + [post], 0) + [("return", x0)], "nest3:%s/%s/%s" % (a, b, cname), "mid")
     # a loop is the very first statement of the method (its counter is a parameter): the entry block is the loop head itself (top-tested,
     # do-while) or holds nothing but the `goto` to the bottom test
     lbody = [("assign", "p1", ("bin", "add", "I", p1, p0, "3reg")), ("assign", "p0", ("bin", "shr", "I", p0, 1, "lit8"))]
